@@ -58,8 +58,9 @@ POOL_PARTIAL = [
     "unbuffered channels (cap = 0) are not modelled; DistMatrix uses 100",
     "the float post-processing (2*max substitution) is covered as 'any commutative locked fold' "
     "(pool_locked_fold_schedule_independent), its float instance is C07's",
-    "first half of C08 (column permutation / replication / weights / reverse complement / row permutation): "
-    "implementation-only metamorphic pairs with relative tolerance 1e-9, not proved here",
+    "first half of C08 (column permutation / replication / weights / reverse complement / row permutation): proved over "
+    "the reals in lean/Gv/Props/C08Cols.lean (see COLS_* in driver/props/c08.py); here implementation-only metamorphic "
+    "pairs with relative tolerance 1e-9",
 ]
 POOL_TRUSTED = [
     "tools/extract/facts.go (syntactic go/ast pass): goroutine roles, captured-variable accesses, lock sets, "
